@@ -33,16 +33,35 @@ EXPLANATION = (
 RTOL = ATOL = 1e-6
 # tolerances (relative), delta = rtol + atol/scale is the accuracy requested from the root
 # finders; factors calibrated on the unchanged tree with margin (see report)
-K_VJ = 1.0            # |vJ_general - vJ_template| <= K_VJ * (rtol + atol/Tn) * vJ
-K_MATCH = 60.0        # matching, boundaries: K_MATCH * delta * gamma+^2 gamma-^2
-K_LTE = 60.0          # |vwLTE difference| <= K_LTE * (atol + rtol*vw)
-TOL_KAPPA = 0.05      # efficiency factor: Simpson rule on the ODE solver's own steps
+K_VJ = 0.02           # |vJ_general - vJ_template| <= K_VJ * (rtol + atol/Tn) * vJ
+K_MATCH = 8.0         # matching, boundaries: K_MATCH * delta * gamma+^2 gamma-^2 with
+#                       delta = rtol + atol/min(vp,Tp,Tm) + rtol/|Tp/Tn - 1|; the last term is
+#                       the conditioning of the shooting in v+: the residual T_shock(v+) - Tn is
+#                       only known to rtol*Tn while its signal is the heating (Tp - Tn)
+K_VMIN = 60.0         # |vMin difference| <= K_VMIN * (atol + rtol*vMin)
+K_LTE = 30.0          # |vwLTE difference| <= K_LTE * (atol + rtol*vw)
+TOL_KAPPA = 0.15      # efficiency factor at the default rtol=atol=1e-6: both classes apply
+#                       Simpson's rule on solve_ivp's own adaptive steps, which limits the
+#                       accuracy of kappa to several % (measured: general 5.3%, template 2.2% off
+#                       the converged value at one point; worst difference between the classes
+#                       9.3% over ~1200 comparisons, hybrids just below vJ)
+TIGHT = 1e-10         # ... so kappa is ALSO compared at rtol=atol=1e-10,
+TOL_KAPPA_TIGHT = 2e-3   # where the classes agree to 4.9e-4 (worst of 135 comparisons)
+
+
+# directed inputs replayed first on every run: exactly equal sound speeds (mu == nu)
+DIRECTED = [(dict(kind="template", alN=0.05, psiN=0.9, cb2=0.25, cs2=0.25, Tn=1.0),
+             [0.1239, 0.1779, 0.3, 0.45, 0.8])]
 
 
 def gen_params(rng):
     psiN = round(rng.uniform(0.5, 0.995), 3)
+    if rng.random() < 0.25:
+        psiN = round(rng.uniform(0.5, 0.66), 3)       # corner: large enthalpy drop
     cs2 = round(rng.uniform(0.2, 1 / 3), 4)
     cb2 = round(rng.uniform(0.2, cs2), 4)             # physical ordering cb2 <= cs2
+    if rng.random() < 0.3:                            # corner: nearly equal sound speeds
+        cb2 = round(max(0.2, cs2 - 10.0 ** rng.uniform(-3.7, -1.8)), 4)
     # a first-order transition towards the low-T phase needs p-(Tn) > p+(Tn), i.e.
     # alN > (1-psiN)/3 (same convention as tests/test_HydroTemplateModel.py)
     alN = round((1 - psiN) / 3 + 10.0 ** rng.uniform(-3, -0.45), 5)
@@ -77,7 +96,7 @@ def velocities(rng, hg, ht, n):
     return out[:n]
 
 
-def compare(ctx, case, stats, rng, n_vw, with_lte=True, with_kappa=True):
+def compare(ctx, case, stats, rng, n_vw, with_lte=True, with_kappa=True, vws=None):
     """the property on the two running solvers for one parameter set"""
     try:
         th, hg, ht = build(case)
@@ -105,14 +124,14 @@ def compare(ctx, case, stats, rng, n_vw, with_lte=True, with_kappa=True):
     # minimal velocity (the general class floors it at vBracketLow)
     vmin_t = max(hg.vBracketLow, ht.vMin)
     d = abs(hg.vMin - vmin_t)
-    tolv = K_MATCH * (ATOL + RTOL * vmin_t)
+    tolv = K_VMIN * (ATOL + RTOL * vmin_t)
     stats.append(("vMin", d / tolv, dict(case=case)))
     ctx.count("vMin", bucket="floor" if vmin_t == hg.vBracketLow else "shock-limited")
     if d > tolv:
         fail("minimal velocity: general %.12g, template %.12g" % (hg.vMin, ht.vMin), "vMin",
              quantity="vMin")
     # matchings and boundary constants
-    for vw in velocities(rng, hg, ht, n_vw):
+    for vw in (vws if vws is not None else velocities(rng, hg, ht, n_vw)):
         branch = "detonation" if vw > hg.vJ else ("hybrid" if vw > ht.cb else "deflagration")
         try:
             with base.Spy(hg) as spy:
@@ -128,25 +147,44 @@ def compare(ctx, case, stats, rng, n_vw, with_lte=True, with_kappa=True):
         ctx.count("matching", dict(case=case, vw=vw), bucket=branch)
         if mg is None or mg[0] is None or mt[0] is None:
             if (mg is None or mg[0] is None) != (mt[0] is None):
-                fail("only one solver finds a matching at vw=%.6g: %r vs %r" % (vw, mg, mt),
-                     "matching-existence", vw=vw, quantity="matching")
+                key = "matching-existence"
+                if mt[0] is None and case["cb2"] == case["cs2"]:
+                    key = "template-no-matching-equal-sound-speeds"
+                fail("only one solver finds a matching at vw=%.6g: general %r, template %r"
+                     % (vw, mg, mt), key, vw=vw, quantity="matching")
             continue
         if spy.fallback:
             ctx.count("general_used_template_fallback", bucket=branch)
         mg = [float(x) for x in mg]
         mt = [float(x) for x in mt]
         vp, vm, Tp, Tm = mt
+        if min(mt) <= 10 * ATOL or min(mg) <= 10 * ATOL:
+            # edge of existence (vw -> shock-limited vMin): v+ -> 0 and T- ~ v+^(1/nu) is
+            # infinitely sensitive; a returned v+ below the absolute tolerance says nothing
+            ctx.count("degenerate_edge_skipped")
+            continue
         delta = RTOL + ATOL / min(vp, Tp, Tm)
+        if branch != "detonation":
+            delta += RTOL / max(abs(Tp / Tn - 1), 1e-12)
         tol = K_MATCH * delta / ((1 - vp * vp) * (1 - vm * vm))
         worst = max(rel(a, b) for a, b in zip(mg, mt))
-        stats.append(("matching", worst / tol, dict(case=case, vw=vw, branch=branch)))
+        # walls within 50% of the hard-coded bracket floor 1e-3: the general solver's
+        # recorded C02 findings (slow-wall-*) live there; not re-reported under C15
         corner = hg.vMin == hg.vBracketLow and vw < 1.5 * hg.vBracketLow
-        if worst > tol and not corner:
+        if corner:
+            ctx.count("slow_wall_corner_skipped")
+            continue
+        stats.append(("matching", worst / tol, dict(case=case, vw=vw, branch=branch)))
+        if worst > tol:
             names = ["vp", "vm", "Tp", "Tm"]
             k = max(range(4), key=lambda i: rel(mg[i], mt[i]))
-            fail("matching at vw=%.6g (%s): %s general %.12g, template %.12g (rel %.3g > "
-                 "%.3g)" % (vw, branch, names[k], mg[k], mt[k], worst, tol), "matching",
-                 vw=vw, general=mg, template=mt, quantity="matching")
+            # hybrids within 2% of the Jouguet velocity are reported as their own class
+            nearJ = branch == "hybrid" and vw > 0.98 * min(hg.vJ, ht.vJ)
+            fail("matching at vw=%.6g (%s, vJ=%.6g): %s general %.12g, template %.12g (rel "
+                 "%.3g > %.3g)" % (vw, branch, ht.vJ, names[k], mg[k], mt[k], worst, tol),
+                 "matching-near-jouguet-hybrid" if nearJ else "matching",
+                 vw=vw, general=mg, template=mt, quantity="matching",
+                 general_success=bool(hg.success))
             continue
         bgf = [float(x) for x in bg]
         btf = [float(x) for x in bt]
@@ -154,7 +192,7 @@ def compare(ctx, case, stats, rng, n_vw, with_lte=True, with_kappa=True):
         stats.append(("boundaries", worstb / (2 * tol), dict(case=case, vw=vw,
                                                              branch=branch)))
         ctx.count("boundaries")
-        if worstb > 2 * tol and not corner:
+        if worstb > 2 * tol:
             fail("findHydroBoundaries at vw=%.6g (%s): general %r, template %r" % (
                 vw, branch, bgf, btf), "boundaries", vw=vw, quantity="boundaries")
     # LTE wall velocity
@@ -174,15 +212,23 @@ def compare(ctx, case, stats, rng, n_vw, with_lte=True, with_kappa=True):
             fail("findvwLTE raised %r" % ex, "raises", quantity="vwLTE")
     # efficiency factor
     if with_kappa:
+        tight = None
         lo = max(hg.vMin, ht.vMin, 0.02)
         vJ1, vJ2 = min(hg.vJ, ht.vJ), max(hg.vJ, ht.vJ)
-        for vw in (rng.uniform(lo, min(ht.cb, vJ1)), rng.uniform(min(ht.cb, vJ1), vJ1 - 1e-3),
-                   rng.uniform(vJ2 + 1e-3, 0.99)):
+        vws = [rng.uniform(lo, min(ht.cb, vJ1)), rng.uniform(min(ht.cb, vJ1), vJ1 - 1e-3),
+               rng.uniform(vJ2 + 1e-3, 0.99)]
+        if ht.cb + 2e-3 < min(ht.cs, vJ1) - 2e-3:
+            # a hybrid that is still slower than the sound speed in front of the wall
+            vws.append(rng.uniform(ht.cb + 2e-3, min(ht.cs, vJ1) - 2e-3))
+        for vw in vws:
             try:
                 kg, kt = float(hg.efficiencyFactor(vw)), float(ht.efficiencyFactor(vw))
             except Exception as ex:
                 ctx.count("raised", bucket="kappa:" + type(ex).__name__)
-                fail("efficiencyFactor raised %r at vw=%.6g" % (ex, vw), "raises", vw=vw,
+                key = "raises"
+                if case["cb2"] == case["cs2"] and isinstance(ex, TypeError):
+                    key = "template-no-matching-equal-sound-speeds"
+                fail("efficiencyFactor raised %r at vw=%.6g" % (ex, vw), key, vw=vw,
                      quantity="kappa")
                 continue
             ctx.count("kappa", bucket="detonation" if vw > vJ2 else (
@@ -191,6 +237,25 @@ def compare(ctx, case, stats, rng, n_vw, with_lte=True, with_kappa=True):
             if rel(kg, kt) > TOL_KAPPA:
                 fail("efficiency factor at vw=%.6g: general %.9g, template %.9g" % (
                     vw, kg, kt), "kappa", vw=vw, quantity="kappa")
+            # the same comparison with both classes at tight tolerances
+            try:
+                if tight is None:
+                    tight = build(case, TIGHT, TIGHT)
+                kg, kt = (float(tight[1].efficiencyFactor(vw)),
+                          float(tight[2].efficiencyFactor(vw)))
+            except Exception as ex:
+                ctx.count("raised", bucket="kappa-tight:" + type(ex).__name__)
+                fail("efficiencyFactor (rtol=atol=1e-10) raised %r at vw=%.6g" % (ex, vw),
+                     "raises", vw=vw, quantity="kappa", rtol=TIGHT, atol=TIGHT)
+                continue
+            ctx.count("kappa_tight")
+            stats.append(("kappa_tight", rel(kg, kt) / TOL_KAPPA_TIGHT,
+                          dict(case=case, vw=vw)))
+            if rel(kg, kt) > TOL_KAPPA_TIGHT:
+                fail("efficiency factor at vw=%.6g with rtol=atol=1e-10: general %.9g, "
+                     "template %.9g (rel %.3g > %.3g)" % (vw, kg, kt, rel(kg, kt),
+                                                         TOL_KAPPA_TIGHT),
+                     "kappa-tight", vw=vw, quantity="kappa", rtol=TIGHT, atol=TIGHT)
 
 
 # ------------------------------------------------------------------------------------
@@ -362,6 +427,12 @@ def run(ctx):
                         traceback.format_exc())
                 ctx.broken.append("harness: correspondence rows raised")
     t0 = time.time()
+    for case, vws in DIRECTED:
+        try:
+            compare(ctx, dict(case), stats, rng, 6, with_lte=False, with_kappa=False, vws=vws)
+        except Exception:
+            ctx.log("harness exception", json.dumps(case), traceback.format_exc())
+            ctx.broken.append("harness: compare raised")
     for m in range(nsets):
         case = gen_params(rng)
         try:
@@ -392,8 +463,15 @@ def run(ctx):
         "template parameter sets: psiN 0.5..0.995, cs2 0.2..1/3, cb2 0.2..cs2, alN = "
         "(1-psiN)/3 + 10^U(-3,-0.45) (transition towards the low-T phase), Tn = "
         "10^{-2..2} * U(0.5,2); per set wall velocities at vMin, near cb, just below/above "
-        "vJ, 0.9..0.99, 0.99 and uniform; vwLTE once, efficiency factor on each branch; "
-        "distinct = distinct (parameter set, vw)")
+        "vJ, 0.9..0.99, 0.99 and uniform; vwLTE once, efficiency factor on each branch, "
+        "both at the default rtol=atol=1e-6 (tolerance %g: Simpson on the ODE solver's own "
+        "steps limits kappa to a few %%) and at rtol=atol=1e-10 (tolerance %g); parameter "
+        "sets with alN <= (1-psiN)/3 are outside the quantifier (the high-T phase has the "
+        "higher pressure at Tn: no transition); tolerances: vJ %g*(rtol+atol/Tn), matching "
+        "and boundaries %g*(rtol+atol/min(vp,Tp,Tm))*gamma+^2*gamma-^2, vwLTE "
+        "%g*(atol+rtol*vw); the measured worst difference/tolerance ratios are in "
+        "coverage.worst_difference_over_tolerance; distinct = distinct (parameter set, vw)"
+        % (TOL_KAPPA, TOL_KAPPA_TIGHT, K_VJ, K_MATCH, K_LTE))
     ctx.assumptions += [
         "both solvers agree on the shooting unknown v+ of deflagrations/hybrids (integration "
         "of the shock ODE: compared numerically, not proved)",
